@@ -69,6 +69,7 @@ fn main() {
         "minimise" => cmd_minimise(&args[2..]),
         "replay" => cmd_replay(&args[2..]),
         "selftest" => scen::selftest(&args[2..]),
+        "digest" => cmd_digest(&args[2..]),
         _ => {
             eprintln!("unknown command {}", args[1]);
             2
@@ -166,6 +167,27 @@ fn cmd_worker(args: &[String]) -> i32 {
     let stdout = std::io::stdout();
     let mut l = stdout.lock();
     let _ = writeln!(l, "{}", out);
+    0
+}
+
+/// Prints one line per run: index, trace hash, state hash, steps, ops, violation signatures.
+/// Used by tools/determinism.sh to compare executions across processes and worker counts.
+fn cmd_digest(args: &[String]) -> i32 {
+    let prop = arg_val(args, "--prop").unwrap();
+    let seed: u64 = arg_val(args, "--seed").and_then(|s| s.parse().ok()).unwrap_or(1);
+    let start: u64 = arg_val(args, "--start").and_then(|s| s.parse().ok()).unwrap_or(0);
+    let stride: u64 = arg_val(args, "--stride").and_then(|s| s.parse().ok()).unwrap_or(1);
+    let count: u64 = arg_val(args, "--count").and_then(|s| s.parse().ok()).unwrap_or(100);
+    let tier = arg_val(args, "--tier").unwrap_or_else(|| "quick".into());
+    let stdout = std::io::stdout();
+    let mut l = stdout.lock();
+    for i in 0..count {
+        let run = start + i * stride;
+        let s = scen::run_one(&prop, seed, run, &tier);
+        let sigs: Vec<String> = s.viols.iter().map(|v| v.signature()).collect();
+        let faults: Vec<String> = s.faults.iter().map(|(k, v)| format!("{}={}", k, v)).collect();
+        let _ = writeln!(l, "{} {:016x} {:016x} {} {} {} [{}] [{}]", run, s.hash, s.state_hash, s.steps, s.ops, s.nontrivial, sigs.join(","), faults.join(","));
+    }
     0
 }
 
